@@ -288,6 +288,8 @@ def specific_docs():
     out.append(("R:many-aliases", Doc([A(f"K{i}", S("A→B⊕C", "bare")) for i in range(4)])))
     out.append(("R:frontmatter-shift", Doc([A("K", S("A→B", "bare")), A("M", S("hello world", "quoted"))], frontmatter="a: 1\nb: (2)",
                                            sentinel="5.1.0", meta=[("TYPE", S("T")), ("E", S("X⇌Y", "bare"))], separator=True)))
+    out.append(("R:frontmatter-line-boundaries", Doc([A("K", S("A→B", "bare")), A("M", S("hello world", "quoted"))],
+                                                     frontmatter="a: x\u2028y\nb: p\x0cq\x85r\x0bs\nc: (3)", meta=[("TYPE", S("T"))], separator=True)))
     out.append(("R:after-zone", Doc([A("Z", dm.Zone("a -> b\n\"\"\"x\"\"\"\nhello world")), A("K", S("A→B", "bare")), A("M", S("hello world", "quoted"))])))
     out.append(("R:after-comment", Doc([A("K", S("A→B", "bare"), lead=("c -> d", 'say """x"""'), trail="t -> u"), A("M", S("two words", "quoted"))])))
     out.append(("R:nested", Doc([B("B1", [B("B2", [A("K", S("A→B", "bare")), A("W", S("deep words here", "quoted"))]), A("T", S("""tq""", "quoted"))]),
@@ -314,7 +316,7 @@ def run(ctx):
     MAX_FULL["v"] = 8 if ctx.quick else 12
     ctx.coverage["bounds"] = {"max_full_product_receipt_sites": MAX_FULL["v"]}
     from .c03 import alias_rich_docs
-    docs = dm.value_sweep(dm.SIMPLE_POOL if ctx.quick else None) + alias_rich_docs()[:: (4 if ctx.quick else 1)] + specific_docs()
+    docs = dm.value_sweep(dm.SIMPLE_POOL if ctx.quick else None) + alias_rich_docs()[:: (4 if ctx.quick else 1)] + specific_docs() + dm.target_docs()
     ctx.explore("receipts", docs, check_doc, chunk=4)
     ctx.explore("curly.write_lenient", curly_docs() + [(l, d) for (l, d) in dm.value_sweep(dm.SIMPLE_POOL) if ":top" in l or ":list" in l], check_curly, chunk=4)
     L = 3 if ctx.quick else 4
